@@ -1,7 +1,7 @@
 #!/bin/bash
 # usage: tools/confirm_seed.sh <Cxx>   -- confirm a seeded change in its scratch worktree /tmp/seed/<Cxx>/wt
 # (1) existing tests pass with the patch  (2) demo fails with the patch  (3) demo passes without it
-ID="$1"; D=/tmp/seed/$ID; WT=$D/wt; export CARGO_TARGET_DIR=$D/target CARGO_NET_OFFLINE=true
+ID="$1"; D=${SEEDBASE:-/tmp/seed}/$ID; WT=$D/wt; export CARGO_TARGET_DIR=$D/target CARGO_NET_OFFLINE=true
 cd "$WT" || exit 2
 git checkout -q -- . ; git apply --whitespace=nowarn "$D/out/patch.diff" || { echo "PATCH DOES NOT APPLY"; exit 2; }
 T1=$(cargo test --offline 2>&1 | grep "^test result" | head -1)
